@@ -33,13 +33,19 @@ func NewClientTransport(
 	requestHeader *transport.RequestHeader,
 	dialOptions *websocket.DialOptions,
 ) *ClientTransport {
+	// `Handshake` sets the HTTP header of the dial options. The options given by the caller are shared by
+	// every transport created from the same configuration (reconnections, upgrades), so work on a copy.
+	options := websocket.DialOptions{}
+	if dialOptions != nil {
+		options = *dialOptions
+	}
 	return &ClientTransport{
 		sid:             sid,
 		protocolVersion: protocolVersion,
 		url:             &url,
 		requestHeader:   requestHeader,
 		callbacks:       callbacks,
-		dialOptions:     dialOptions,
+		dialOptions:     &options,
 	}
 }
 
